@@ -406,19 +406,20 @@ theorem collCallAll_mem (c : Coll) (hwf : c.wf = true) (a : Arg) (vs : List V)
   | one b => exact callAll_mem b hwf a vs h v
   | union bs => exact callAllBuckets_mem bs hwf a vs h v
 
-/-- an error of CallAll means a member that is not a pair -/
+/-- an error of CallAll is of class `other` and means a foreign member -/
 theorem callAll_error (b : Bucket) (hwf : b.wf = true) (a : Arg) (e : Err) (h : Impl.callAll b a = .error e) :
-    ∃ x ∈ b.members, isPair x = false := by
+    e = .other ∧ ∃ x ∈ b.members, Spec.foreign x = true := by
   cases b with
   | other xs =>
-    simp only [Bucket.wf, Bool.and_eq_true, Bool.not_eq_true', List.isEmpty_eq_false_iff, List.all_eq_true] at hwf
-    cases xs with
-    | nil => exact absurd rfl hwf.1
-    | cons x r => exact ⟨x, by simp [Bucket.members], hwf.2 x (by simp)⟩
+    simp only [Bucket.wf, Bool.and_eq_true, Bool.not_eq_true', List.isEmpty_eq_false_iff, List.all_eq_true,
+      List.any_eq_true, decide_eq_true_eq] at hwf
+    obtain ⟨⟨_, hall⟩, x, hx, hne⟩ := hwf
+    simp only [Impl.callAll, Except.error.injEq] at h
+    exact ⟨h.symm, x, hx, by simp [Spec.foreign, hall x hx, hne]⟩
   | _ => simp [Impl.callAll] at h
 
 theorem callAllBuckets_error (bs : List Bucket) (hwf : bs.all Bucket.wf = true) (a : Arg) (e : Err)
-    (h : Impl.callAllBuckets bs a = .error e) : ∃ x ∈ bucketsMembers bs, isPair x = false := by
+    (h : Impl.callAllBuckets bs a = .error e) : e = .other ∧ ∃ x ∈ bucketsMembers bs, Spec.foreign x = true := by
   induction bs with
   | nil => simp [Impl.callAllBuckets] at h
   | cons b r ih =>
@@ -426,59 +427,139 @@ theorem callAllBuckets_error (bs : List Bucket) (hwf : bs.all Bucket.wf = true) 
     unfold Impl.callAllBuckets at h
     cases h1 : Impl.callAll b a with
     | error e' =>
-      obtain ⟨x, hx, hp⟩ := callAll_error b hwf.1 a e' h1
-      exact ⟨x, by simp [bucketsMembers, hx], hp⟩
+      rw [h1] at h
+      simp only [Except.error.injEq] at h; subst h
+      obtain ⟨he, x, hx, hp⟩ := callAll_error b hwf.1 a e' h1
+      exact ⟨he, x, by simp [bucketsMembers, hx], hp⟩
     | ok ws =>
       rw [h1] at h
       cases h2 : Impl.callAllBuckets r a with
       | error e' =>
-        obtain ⟨x, hx, hp⟩ := ih hwf.2 (by rw [h2] at h; simp at h; subst h; exact h2)
-        exact ⟨x, by simp [bucketsMembers, hx], hp⟩
+        rw [h2] at h
+        simp only [Except.error.injEq] at h; subst h
+        obtain ⟨he, x, hx, hp⟩ := ih hwf.2 h2
+        exact ⟨he, x, by simp [bucketsMembers, hx], hp⟩
       | ok us => rw [h2] at h; simp at h
 
 theorem collCallAll_error (c : Coll) (hwf : c.wf = true) (a : Arg) (e : Err)
-    (h : Impl.collCallAll c a = .error e) : ∃ x ∈ c.members, isPair x = false := by
+    (h : Impl.collCallAll c a = .error e) : e = .other ∧ ∃ x ∈ c.members, Spec.foreign x = true := by
   cases c with
   | empty => simp [Impl.collCallAll] at h
   | true_ => simp [Impl.collCallAll] at h
   | one b => exact callAll_error b hwf a e h
   | union bs => exact callAllBuckets_error bs hwf a e h
 
+/-- where CallAll succeeds there is no foreign member -/
+theorem callAll_ok_members (b : Bucket) (hwf : b.wf = true) (a : Arg) (vs : List V)
+    (h : Impl.callAll b a = .ok vs) : ∀ x ∈ b.members, Spec.foreign x = false := by
+  intro x hx
+  cases b with
+  | str off rs =>
+    obtain ⟨i, v, _, rfl⟩ := (mem_seqMembers _ _ _ _).1 hx
+    simp [Spec.foreign, isPair_pair "@char" _ _ (by decide)]
+  | bytes off bs =>
+    obtain ⟨i, v, _, rfl⟩ := (mem_seqMembers _ _ _ _).1 hx
+    simp [Spec.foreign, isPair_pair "@byte" _ _ (by decide)]
+  | arr off vs =>
+    obtain ⟨i, v, _, rfl⟩ := (mem_seqMembers _ _ _ _).1 hx
+    simp [Spec.foreign, isPair_pair "@item" _ _ (by decide)]
+  | dict m =>
+    obtain ⟨k, vs, _, v, _, rfl⟩ := (mem_dictMembers m x).1 hx
+    simp [Spec.foreign, isPair_pair "@value" _ _ (by decide)]
+  | rel atFirst name rows =>
+    simp only [Bucket.wf, decide_eq_true_eq] at hwf
+    simp only [Bucket.members, List.mem_map] at hx
+    obtain ⟨r, _, rfl⟩ := hx
+    simp [Spec.foreign, isPair_pair name _ _ hwf]
+  | other xs => simp [Impl.callAll] at h
+  | tt =>
+    simp only [Bucket.members, List.mem_singleton] at hx
+    subst hx; simp [Spec.foreign]
+
+theorem callAllBuckets_ok_members (bs : List Bucket) (hwf : bs.all Bucket.wf = true) (a : Arg) (vs : List V)
+    (h : Impl.callAllBuckets bs a = .ok vs) : ∀ x ∈ bucketsMembers bs, Spec.foreign x = false := by
+  induction bs generalizing vs with
+  | nil => simp [bucketsMembers]
+  | cons b r ih =>
+    simp only [List.all_cons, Bool.and_eq_true] at hwf
+    unfold Impl.callAllBuckets at h
+    cases h1 : Impl.callAll b a with
+    | error e => rw [h1] at h; simp at h
+    | ok ws =>
+      rw [h1] at h
+      cases h2 : Impl.callAllBuckets r a with
+      | error e => rw [h2] at h; simp at h
+      | ok us =>
+        intro x hx
+        simp only [bucketsMembers, List.mem_append] at hx
+        rcases hx with hx | hx
+        · exact callAll_ok_members b hwf.1 a ws h1 x hx
+        · exact ih hwf.2 us h2 x hx
+
+theorem collCallAll_ok_members (c : Coll) (hwf : c.wf = true) (a : Arg) (vs : List V)
+    (h : Impl.collCallAll c a = .ok vs) : ∀ x ∈ c.members, Spec.foreign x = false := by
+  cases c with
+  | empty => simp [Coll.members]
+  | true_ => intro x hx; simp only [Coll.members, List.mem_singleton] at hx; subst hx; simp [Spec.foreign]
+  | one b => exact callAll_ok_members b hwf a vs h
+  | union bs => exact callAllBuckets_ok_members bs hwf a vs h
+
 theorem keyed_den (c : Coll) : Spec.keyed c.den = true ↔ ∀ x ∈ c.members, isPair x = true := by
   simp only [Coll.den, V.mkSet, Spec.keyed, List.all_eq_true, FinSet.mem_mk]
+
+theorem setCall_of_ok (c : Coll) (a : Arg) (hwf : c.wf = true) (vs : List V)
+    (h : Impl.collCallAll c a = .ok vs) : Impl.setCall c a = Spec.call c.den a := by
+  unfold Impl.setCall
+  rw [h]
+  simp only [Spec.call, Coll.den, V.mkSet]
+  congr 1
+  apply mk_congr
+  intro v
+  rw [collCallAll_mem c hwf a vs h v, List.mem_filterMap]
+  constructor
+  · rintro ⟨x, hx, hv⟩; exact ⟨x, (FinSet.mem_mk _ _).2 hx, hv⟩
+  · rintro ⟨x, hx, hv⟩; exact ⟨x, (FinSet.mem_mk _ _).1 hx, hv⟩
+
+/-- SetCall on ANY well-formed representation is the specification's `callAny` on its meaning -/
+theorem setCall_total (c : Coll) (a : Arg) (hwf : c.wf = true) : Impl.setCall c a = Spec.callAny c.den a := by
+  cases h : Impl.collCallAll c a with
+  | error e =>
+    obtain ⟨rfl, x, hx, hf⟩ := collCallAll_error c hwf a e h
+    have : (FinSet.mk c.members).any Spec.foreign = true :=
+      List.any_eq_true.2 ⟨x, (FinSet.mem_mk _ _).2 hx, hf⟩
+    simp [Impl.setCall, h, Spec.callAny, Coll.den, V.mkSet, this]
+  | ok vs =>
+    have hno := collCallAll_ok_members c hwf a vs h
+    have : (FinSet.mk c.members).any Spec.foreign = false := by
+      rw [List.any_eq_false]
+      intro x hx
+      simp [hno x ((FinSet.mem_mk _ _).1 hx)]
+    rw [setCall_of_ok c a hwf vs h]
+    simp [Spec.callAny, Coll.den, V.mkSet, this]
 
 /-- SetCall on a keyed collection is the specification's `call` on its meaning -/
 theorem setCall_eq (c : Coll) (a : Arg) (hwf : c.wf = true) (hk : Spec.keyed c.den = true) :
     Impl.setCall c a = Spec.call c.den a := by
   rw [keyed_den] at hk
-  unfold Impl.setCall
   cases h : Impl.collCallAll c a with
   | error e =>
-    obtain ⟨x, hx, hp⟩ := collCallAll_error c hwf a e h
-    rw [hk x hx] at hp; simp at hp
-  | ok vs =>
-    simp only [Spec.call, Coll.den, V.mkSet]
-    congr 1
-    apply mk_congr
-    intro v
-    rw [collCallAll_mem c hwf a vs h v, List.mem_filterMap]
-    constructor
-    · rintro ⟨x, hx, hv⟩; exact ⟨x, (FinSet.mem_mk _ _).2 hx, hv⟩
-    · rintro ⟨x, hx, hv⟩; exact ⟨x, (FinSet.mem_mk _ _).1 hx, hv⟩
+    obtain ⟨_, x, hx, hp⟩ := collCallAll_error c hwf a e h
+    simp [Spec.foreign, hk x hx] at hp
+  | ok vs => exact setCall_of_ok c a hwf vs h
 
 /-! ## `>>` / `>>>` -/
 
-theorem mapMembers_ok {f : F} {l ys : List V} (h : Spec.mapMembers f l = .ok ys) (y : V) :
-    y ∈ ys ↔ ∃ x ∈ l, Spec.mapMember f x = .ok y := by
+theorem mapMembers_ok {f : F} {l ys : List V} (h : Spec.mapMembers m f l = .ok ys) (y : V) :
+    y ∈ ys ↔ ∃ x ∈ l, Spec.mapMember m f x = .ok y := by
   induction l generalizing ys with
   | nil => simp only [Spec.mapMembers, Except.ok.injEq] at h; subst h; simp
   | cons x r ih =>
     unfold Spec.mapMembers at h
-    cases h1 : Spec.mapMember f x with
+    cases h1 : Spec.mapMember m f x with
     | error e => rw [h1] at h; simp at h
     | ok z =>
       rw [h1] at h
-      cases h2 : Spec.mapMembers f r with
+      cases h2 : Spec.mapMembers m f r with
       | error e => rw [h2] at h; simp at h
       | ok zs =>
         rw [h2] at h
@@ -489,23 +570,23 @@ theorem mapMembers_ok {f : F} {l ys : List V} (h : Spec.mapMembers f l = .ok ys)
         · rintro (h | h); exact Or.inl h.symm; exact Or.inr h
 
 theorem mapMembers_error {f : F} {l : List V} :
-    (∃ e, Spec.mapMembers f l = .error e) ↔ ∃ x ∈ l, ∃ e, Spec.mapMember f x = .error e := by
+    (∃ e, Spec.mapMembers m f l = .error e) ↔ ∃ x ∈ l, ∃ e, Spec.mapMember m f x = .error e := by
   induction l with
   | nil => simp [Spec.mapMembers]
   | cons x r ih =>
     unfold Spec.mapMembers
-    cases h1 : Spec.mapMember f x with
+    cases h1 : Spec.mapMember m f x with
     | error e =>
       simp only [List.mem_cons, exists_eq_or_imp]
       exact ⟨fun _ => Or.inl ⟨e, h1⟩, fun _ => ⟨e, rfl⟩⟩
     | ok z =>
       simp only [List.mem_cons, exists_eq_or_imp, h1]
-      cases h2 : Spec.mapMembers f r with
+      cases h2 : Spec.mapMembers m f r with
       | error e =>
         have := ih.1 (by rw [h2]; exact ⟨e, rfl⟩)
         simp [this]
       | ok zs =>
-        have : ¬ ∃ x ∈ r, ∃ e, Spec.mapMember f x = .error e := by
+        have : ¬ ∃ x ∈ r, ∃ e, Spec.mapMember m f x = .error e := by
           intro hh; obtain ⟨e, he⟩ := ih.2 hh; rw [h2] at he; simp at he
         simp [this]
 
@@ -516,14 +597,14 @@ def okSet : Res (List V) → Option V
 
 /-- transforming members does not depend on the order / multiplicity in which they are listed -/
 theorem mapMembers_congr (f : F) {l₁ l₂ : List V} (h : ∀ x, x ∈ l₁ ↔ x ∈ l₂) :
-    okSet (Spec.mapMembers f l₁) = okSet (Spec.mapMembers f l₂) := by
-  cases h1 : Spec.mapMembers f l₁ with
+    okSet (Spec.mapMembers m f l₁) = okSet (Spec.mapMembers m f l₂) := by
+  cases h1 : Spec.mapMembers m f l₁ with
   | error e1 =>
     obtain ⟨x, hx, e, he⟩ := mapMembers_error.1 ⟨e1, h1⟩
     obtain ⟨e2, h2⟩ := mapMembers_error.2 ⟨x, (h x).1 hx, e, he⟩
     rw [h2]; rfl
   | ok ys1 =>
-    cases h2 : Spec.mapMembers f l₂ with
+    cases h2 : Spec.mapMembers m f l₂ with
     | error e2 =>
       obtain ⟨x, hx, e, he⟩ := mapMembers_error.1 ⟨e2, h2⟩
       obtain ⟨e1, h1'⟩ := mapMembers_error.2 ⟨x, (h x).2 hx, e, he⟩
@@ -538,35 +619,44 @@ theorem mapMembers_congr (f : F) {l₁ l₂ : List V} (h : ∀ x, x ∈ l₁ ↔
       · rintro ⟨x, hx, hy⟩; exact ⟨x, (h x).2 hx, hy⟩
 
 theorem mapVals_den (f : F) (c : Coll) :
-    (Spec.mapVals f c.den).value? = okSet (Spec.mapMembers f c.members) := by
-  have := mapMembers_congr f (l₁ := FinSet.mk c.members) (l₂ := c.members) (fun x => FinSet.mem_mk _ x)
+    (Spec.mapVals f c.den).value? = okSet (Spec.mapMembers (Spec.modeOf c.den) f c.members) := by
+  have := mapMembers_congr (m := Spec.modeOf c.den) f (l₁ := FinSet.mk c.members) (l₂ := c.members)
+    (fun x => FinSet.mem_mk _ x)
   rw [← this]
   simp only [Coll.den, V.mkSet, Spec.mapVals]
-  cases Spec.mapMembers f (FinSet.mk c.members) <;> rfl
+  cases Spec.mapMembers (Spec.modeOf (V.set (FinSet.mk c.members))) f (FinSet.mk c.members) <;> rfl
 
 /-- what `Impl.seqArrow` has to deliver for `seqarrow_refines` -/
-def ArrowOk (f : F) (c : Coll) (r : Res Coll) : Prop :=
+def ArrowOk (m : Spec.Mode) (f : F) (c : Coll) (r : Res Coll) : Prop :=
   match r with
-  | .ok c' => ∃ ys, Spec.mapMembers f c.members = .ok ys ∧ ∀ y, y ∈ c'.members ↔ y ∈ ys
-  | .error _ => ∃ e, Spec.mapMembers f c.members = .error e
+  | .ok c' => ∃ ys, Spec.mapMembers m f c.members = .ok ys ∧ ∀ y, y ∈ c'.members ↔ y ∈ ys
+  | .error _ => ∃ e, Spec.mapMembers m f c.members = .error e
 
-theorem arrowOk_refines {f : F} {c : Coll} {r : Res Coll} (h : ArrowOk f c r) :
+theorem mapMembers_nil_mode (m m' : Spec.Mode) (f : F) : Spec.mapMembers m f [] = Spec.mapMembers m' f [] := rfl
+
+theorem arrowOk_refines {m : Spec.Mode} {f : F} {c : Coll} {r : Res Coll} (h : ArrowOk m f c r)
+    (hm : c.members = [] ∨ Spec.modeOf c.den = m) :
     r.value?.map Coll.den = (Spec.mapVals f c.den).value? := by
   rw [mapVals_den]
+  have hmode : Spec.mapMembers (Spec.modeOf c.den) f c.members = Spec.mapMembers m f c.members := by
+    rcases hm with hm | hm
+    · rw [hm]; rfl
+    · rw [hm]
+  rw [hmode]
   cases r with
   | error e => obtain ⟨e', he⟩ := h; rw [he]; rfl
   | ok c' =>
-    obtain ⟨ys, hys, hm⟩ := h
+    obtain ⟨ys, hys, hmem⟩ := h
     rw [hys]
     simp only [Res.value?, Option.map_some, okSet, Coll.den, V.mkSet, Option.some.injEq, V.set.injEq]
-    exact mk_congr hm
+    exact mk_congr hmem
 
 /-- members of a sequence are transformed slot by slot -/
 theorem mapMembers_pairs (f : F) (name : String) (g : Int → V → Res V)
-    (hg : ∀ i v, Spec.mapMember f (V.pair name (.num i) v) =
+    (hg : ∀ i v, Spec.mapMember m f (V.pair name (.num i) v) =
       (match g i v with | .ok w => .ok (V.pair name (.num i) w) | .error e => .error e))
     (l : List (Int × V)) :
-    Spec.mapMembers f (l.map (fun t => V.pair name (.num t.1) t.2)) =
+    Spec.mapMembers m f (l.map (fun t => V.pair name (.num t.1) t.2)) =
       (match pmapM g l with
        | .ok ys => .ok (ys.map (fun t => V.pair name (.num t.1) t.2))
        | .error e => .error e) := by
@@ -583,10 +673,10 @@ theorem mapMembers_pairs (f : F) (name : String) (g : Int → V → Res V)
       cases pmapM g r <;> rfl
 
 theorem mapMembers_seq (f : F) (name : String) (g : Int → V → Res V)
-    (hg : ∀ i v, Spec.mapMember f (V.pair name (.num i) v) =
+    (hg : ∀ i v, Spec.mapMember m f (V.pair name (.num i) v) =
       (match g i v with | .ok w => .ok (V.pair name (.num i) w) | .error e => .error e))
     (off : Int) (slots : List (Option V)) :
-    Spec.mapMembers f (seqMembers name off slots) =
+    Spec.mapMembers m f (seqMembers name off slots) =
       (match kmapM g off slots with
        | .ok ys => .ok (seqMembers name off ys)
        | .error e => .error e) := by
@@ -626,13 +716,13 @@ theorem validByte_some {w : V} {c : Nat} (h : Impl.validByte w = some c) :
   · simp at h
 
 theorem mapMember_char (f : F) (i : Int) (v : V) :
-    Spec.mapMember f (V.pair "@char" (.num i) v) =
+    Spec.mapMember .string f (V.pair "@char" (.num i) v) =
       (match charG f i v with | .ok w => .ok (V.pair "@char" (.num i) w) | .error e => .error e) := by
   simp only [Spec.mapMember, asPair_pair "@char" _ _ (by decide), charG]
   cases f (.num i) v with
   | error e => rfl
   | ok w =>
-    simp only [Spec.valueOk, if_true]
+    simp only [Spec.valueOk]
     cases hv : Impl.validChar w with
     | some c =>
       obtain ⟨rfl, h0, h1⟩ := validChar_some hv
@@ -647,14 +737,13 @@ theorem mapMember_char (f : F) (i : Int) (v : V) :
       | set _ => simp
 
 theorem mapMember_byte (f : F) (i : Int) (v : V) :
-    Spec.mapMember f (V.pair "@byte" (.num i) v) =
+    Spec.mapMember .bytes f (V.pair "@byte" (.num i) v) =
       (match byteG f i v with | .ok w => .ok (V.pair "@byte" (.num i) w) | .error e => .error e) := by
   simp only [Spec.mapMember, asPair_pair "@byte" _ _ (by decide), byteG]
   cases f (.num i) v with
   | error e => rfl
   | ok w =>
-    have hne : ("@byte" : String) ≠ "@char" := by decide
-    simp only [Spec.valueOk, hne, if_false, if_true]
+    simp only [Spec.valueOk]
     cases hv : Impl.validByte w with
     | some c =>
       obtain ⟨rfl, h1⟩ := validByte_some hv
@@ -670,21 +759,23 @@ theorem mapMember_byte (f : F) (i : Int) (v : V) :
       | set _ => simp
 
 theorem mapMember_item (f : F) (i : Int) (v : V) :
-    Spec.mapMember f (V.pair "@item" (.num i) v) =
+    Spec.mapMember .generic f (V.pair "@item" (.num i) v) =
       (match f (.num i) v with | .ok w => .ok (V.pair "@item" (.num i) w) | .error e => .error e) := by
   have h1 : ("@item" : String) ≠ "@char" := by decide
   have h2 : ("@item" : String) ≠ "@byte" := by decide
-  simp only [Spec.mapMember, asPair_pair "@item" _ _ (by decide), Spec.valueOk, h1, h2, if_false, if_true]
-  cases f (.num i) v <;> rfl
+  simp only [Spec.mapMember, asPair_pair "@item" _ _ (by decide), Spec.valueOk, h1, h2, or_self, if_false]
+  cases f (.num i) v with
+  | error e => rfl
+  | ok w => simp
 
 theorem mapMember_other (f : F) (name : String) (hn : name ≠ "@") (h1 : name ≠ "@char") (h2 : name ≠ "@byte")
     (k v : V) :
-    Spec.mapMember f (V.pair name k v) =
+    Spec.mapMember .generic f (V.pair name k v) =
       (match f k v with | .ok w => .ok (V.pair name k w) | .error e => .error e) := by
-  simp only [Spec.mapMember, asPair_pair name _ _ hn, Spec.valueOk, h1, h2, if_false]
+  simp only [Spec.mapMember, asPair_pair name _ _ hn, Spec.valueOk, h1, h2, or_self, if_false]
   cases f k v with
   | error e => rfl
-  | ok w => cases k <;> simp
+  | ok w => simp
 
 /-- the String loop is the generic slot loop with `charG` -/
 theorem strLoop_kmapM (f : F) (off : Int) (rs : List Int) :
@@ -779,7 +870,7 @@ theorem dictMembers_eq (m : List (V × List V)) :
     simp [dictMembers, Impl.dictEntries, ih, Function.comp_def]
 
 theorem mapMembers_entries (f : F) (es : List (V × V)) :
-    Spec.mapMembers f (es.map (fun e => V.pair "@value" e.1 e.2)) =
+    Spec.mapMembers .generic f (es.map (fun e => V.pair "@value" e.1 e.2)) =
       (match Impl.dictLoop f es with
        | .ok out => .ok (out.map (fun e => V.pair "@value" e.1 e.2))
        | .error e => .error e) := by
@@ -859,8 +950,8 @@ theorem mem_dictMembers_newDict (es : List (V × V)) (x : V) :
 
 /-- `>>` on the four sugared representations -/
 theorem arrowOk_str (f : F) (off : Int) (rs : List Int) :
-    ArrowOk f (.one (.str off rs)) (Impl.seqArrow f (.one (.str off rs))) := by
-  have h := mapMembers_seq f "@char" (charG f) (mapMember_char f) off (strSlots rs)
+    ArrowOk .string f (.one (.str off rs)) (Impl.seqArrow f (.one (.str off rs))) := by
+  have h := mapMembers_seq (m := .string) f "@char" (charG f) (mapMember_char f) off (strSlots rs)
   rw [strLoop_kmapM] at h
   simp only [Impl.seqArrow]
   cases hl : Impl.strLoop f off rs with
@@ -870,8 +961,8 @@ theorem arrowOk_str (f : F) (off : Int) (rs : List Int) :
     exact ⟨_, h, fun y => by rw [members_newOffsetString]⟩
 
 theorem arrowOk_bytes (f : F) (off : Int) (bs : List Nat) :
-    ArrowOk f (.one (.bytes off bs)) (Impl.seqArrow f (.one (.bytes off bs))) := by
-  have h := mapMembers_seq f "@byte" (byteG f) (mapMember_byte f) off (byteSlots bs)
+    ArrowOk .bytes f (.one (.bytes off bs)) (Impl.seqArrow f (.one (.bytes off bs))) := by
+  have h := mapMembers_seq (m := .bytes) f "@byte" (byteG f) (mapMember_byte f) off (byteSlots bs)
   rw [bytesLoop_kmapM] at h
   simp only [Impl.seqArrow]
   cases hl : Impl.bytesLoop f off bs with
@@ -881,8 +972,8 @@ theorem arrowOk_bytes (f : F) (off : Int) (bs : List Nat) :
     exact ⟨_, h, fun y => by rw [members_newOffsetBytes]⟩
 
 theorem arrowOk_arr (f : F) (off : Int) (vs : List (Option V)) :
-    ArrowOk f (.one (.arr off vs)) (Impl.seqArrow f (.one (.arr off vs))) := by
-  have h := mapMembers_seq f "@item" (fun i v => f (.num i) v) (mapMember_item f) off vs
+    ArrowOk .generic f (.one (.arr off vs)) (Impl.seqArrow f (.one (.arr off vs))) := by
+  have h := mapMembers_seq (m := .generic) f "@item" (fun i v => f (.num i) v) (mapMember_item f) off vs
   simp only [Impl.seqArrow]
   cases hl : kmapM (fun i v => f (.num i) v) off vs with
   | error e => rw [hl] at h; exact ⟨e, h⟩
@@ -891,7 +982,7 @@ theorem arrowOk_arr (f : F) (off : Int) (vs : List (Option V)) :
     exact ⟨_, h, fun y => by rw [members_newOffsetArray]⟩
 
 theorem arrowOk_dict (f : F) (m : List (V × List V)) :
-    ArrowOk f (.one (.dict m)) (Impl.seqArrow f (.one (.dict m))) := by
+    ArrowOk .generic f (.one (.dict m)) (Impl.seqArrow f (.one (.dict m))) := by
   have h := mapMembers_entries f (Impl.dictEntries m)
   rw [← dictMembers_eq] at h
   simp only [Impl.seqArrow]
@@ -905,6 +996,128 @@ theorem arrowOk_dict (f : F) (m : List (V × List V)) :
       simp only [List.isEmpty_iff] at he
       subst he; simp [Coll.members]
     · simp only [Coll.members, Bucket.members, mem_dictMembers_newDict]
+
+/-! ## which mode a representation's meaning is in -/
+
+theorem mk_isEmpty (l : List V) : (FinSet.mk l).isEmpty = l.isEmpty := by
+  cases l with
+  | nil => rfl
+  | cons x r =>
+    have : x ∈ FinSet.mk (x :: r) := (FinSet.mem_mk _ _).2 (by simp)
+    cases h : FinSet.mk (x :: r) with
+    | nil => rw [h] at this; simp at this
+    | cons a b => rfl
+
+theorem mk_all (l : List V) (p : V → Bool) : (FinSet.mk l).all p = l.all p := by
+  rw [Bool.eq_iff_iff]
+  simp only [List.all_eq_true, FinSet.mem_mk]
+
+theorem isStringV_den (c : Coll) :
+    Spec.isStringV c.den = (!c.members.isEmpty && c.members.all Spec.charMember) := by
+  simp only [Coll.den, V.mkSet, Spec.isStringV, mk_isEmpty, mk_all]
+
+theorem isBytesV_den (c : Coll) :
+    Spec.isBytesV c.den = (!c.members.isEmpty && c.members.all Spec.byteMember) := by
+  simp only [Coll.den, V.mkSet, Spec.isBytesV, mk_isEmpty, mk_all]
+
+theorem charMember_pair (name : String) (hn : name ≠ "@") (k v : V) :
+    Spec.charMember (V.pair name k v) =
+      (match k, v with | .num _, .num c => decide (name = "@char") && decide (0 ≤ c) | _, _ => false) := by
+  simp only [Spec.charMember, asPair_pair name k v hn]
+  cases k <;> cases v <;> simp
+
+theorem byteMember_pair (name : String) (hn : name ≠ "@") (k v : V) :
+    Spec.byteMember (V.pair name k v) =
+      (match k, v with | .num _, .num b => decide (name = "@byte") && decide (0 ≤ b ∧ b < 256) | _, _ => false) := by
+  simp only [Spec.byteMember, asPair_pair name k v hn]
+  cases k <;> cases v <;> simp
+
+theorem mem_kden_strSlots {off i : Int} {v : V} {rs : List Int} (h : (i, v) ∈ kden off (strSlots rs)) :
+    ∃ r, 0 ≤ r ∧ v = .num r := by
+  induction rs generalizing off with
+  | nil => simp [strSlots, kden] at h
+  | cons r rs ih =>
+    simp only [strSlots, List.map_cons] at h
+    by_cases hr : r < 0
+    · simp only [hr, if_true, kden] at h; exact ih h
+    · simp only [hr, if_false, kden, List.mem_cons, Prod.mk.injEq] at h
+      rcases h with ⟨_, rfl⟩ | h
+      · exact ⟨r, by omega, rfl⟩
+      · exact ih h
+
+theorem mem_kden_byteSlots {off i : Int} {v : V} {bs : List Nat} (h : (i, v) ∈ kden off (byteSlots bs)) :
+    ∃ b ∈ bs, v = .num (Int.ofNat b) := by
+  induction bs generalizing off with
+  | nil => simp [byteSlots, kden] at h
+  | cons b bs ih =>
+    simp only [byteSlots, List.map_cons, kden, List.mem_cons, Prod.mk.injEq] at h
+    rcases h with ⟨_, rfl⟩ | h
+    · exact ⟨b, by simp, rfl⟩
+    · obtain ⟨b', hb, e⟩ := ih h; exact ⟨b', by simp [hb], e⟩
+
+theorem modeOf_str (off : Int) (rs : List Int) (hne : (Coll.one (.str off rs)).members ≠ []) :
+    Spec.modeOf (Coll.one (.str off rs)).den = .string := by
+  have : Spec.isStringV (Coll.one (.str off rs)).den = true := by
+    rw [isStringV_den]
+    simp only [Bool.and_eq_true, Bool.not_eq_true', List.isEmpty_eq_false_iff, List.all_eq_true]
+    refine ⟨hne, fun x hx => ?_⟩
+    obtain ⟨i, v, hiv, rfl⟩ := (mem_seqMembers _ _ _ _).1 hx
+    obtain ⟨r, hr, rfl⟩ := mem_kden_strSlots hiv
+    simp [charMember_pair "@char" (by decide), hr]
+  simp [Spec.modeOf, this]
+
+theorem modeOf_bytes (off : Int) (bs : List Nat) (hwf : (Bucket.bytes off bs).wf = true)
+    (hne : (Coll.one (.bytes off bs)).members ≠ []) :
+    Spec.modeOf (Coll.one (.bytes off bs)).den = .bytes := by
+  simp only [Bucket.wf, List.all_eq_true, decide_eq_true_eq] at hwf
+  obtain ⟨x0, hx0⟩ := List.exists_mem_of_ne_nil _ hne
+  have hs : Spec.isStringV (Coll.one (.bytes off bs)).den = false := by
+    rw [isStringV_den]
+    simp only [Bool.and_eq_false_iff, Bool.not_eq_false', List.all_eq_false]
+    refine Or.inr ⟨x0, hx0, ?_⟩
+    obtain ⟨i, v, hiv, rfl⟩ := (mem_seqMembers _ _ _ _).1 hx0
+    obtain ⟨b, _, rfl⟩ := mem_kden_byteSlots hiv
+    simp [charMember_pair "@byte" (by decide)]
+  have hb : Spec.isBytesV (Coll.one (.bytes off bs)).den = true := by
+    rw [isBytesV_den]
+    simp only [Bool.and_eq_true, Bool.not_eq_true', List.isEmpty_eq_false_iff, List.all_eq_true]
+    refine ⟨hne, fun x hx => ?_⟩
+    obtain ⟨i, v, hiv, rfl⟩ := (mem_seqMembers _ _ _ _).1 hx
+    obtain ⟨b, hb, rfl⟩ := mem_kden_byteSlots hiv
+    have := hwf b hb
+    simp only [byteMember_pair "@byte" (by decide), Int.ofNat_eq_natCast, decide_true, Bool.true_and,
+      decide_eq_true_eq]
+    omega
+  simp [Spec.modeOf, hs, hb]
+
+/-- a collection with a member that is neither a char member nor a byte member is in generic mode -/
+theorem modeOf_generic (c : Coll) (x : V) (hx : x ∈ c.members) (h1 : Spec.charMember x = false)
+    (h2 : Spec.byteMember x = false) : Spec.modeOf c.den = .generic := by
+  have hs : Spec.isStringV c.den = false := by
+    rw [isStringV_den]
+    simp only [Bool.and_eq_false_iff, Bool.not_eq_false', List.all_eq_false]
+    exact Or.inr ⟨x, hx, by simp [h1]⟩
+  have hb : Spec.isBytesV c.den = false := by
+    rw [isBytesV_den]
+    simp only [Bool.and_eq_false_iff, Bool.not_eq_false', List.all_eq_false]
+    exact Or.inr ⟨x, hx, by simp [h2]⟩
+  simp [Spec.modeOf, hs, hb]
+
+theorem modeOf_arr (off : Int) (vs : List (Option V)) (hne : (Coll.one (.arr off vs)).members ≠ []) :
+    Spec.modeOf (Coll.one (.arr off vs)).den = .generic := by
+  obtain ⟨x0, hx0⟩ := List.exists_mem_of_ne_nil _ hne
+  obtain ⟨i, v, _, rfl⟩ := (mem_seqMembers _ _ _ _).1 hx0
+  apply modeOf_generic _ _ hx0
+  · rw [charMember_pair "@item" (by decide)]; cases v <;> simp
+  · rw [byteMember_pair "@item" (by decide)]; cases v <;> simp
+
+theorem modeOf_dict (m : List (V × List V)) (hne : (Coll.one (.dict m)).members ≠ []) :
+    Spec.modeOf (Coll.one (.dict m)).den = .generic := by
+  obtain ⟨x0, hx0⟩ := List.exists_mem_of_ne_nil _ hne
+  obtain ⟨k, vs, _, v, _, rfl⟩ := (mem_dictMembers m x0).1 hx0
+  apply modeOf_generic _ _ hx0
+  · rw [charMember_pair "@value" (by decide)]; cases k <;> cases v <;> simp
+  · rw [byteMember_pair "@value" (by decide)]; cases k <;> cases v <;> simp
 
 /-! ## offsets -/
 
@@ -1232,13 +1445,19 @@ theorem classify_cases (x : V) :
       by_cases h1 : name = "@char"
       · subst h1
         cases v with
-        | num c => exact Or.inl ⟨i, c, by simp [classify, hp], hx⟩
+        | num c =>
+          by_cases hr : 0 ≤ c ∧ c ≤ 1114111
+          · exact Or.inl ⟨i, c, by simp [classify, hp, hr], hx⟩
+          · exact Or.inr (Or.inr (Or.inr (Or.inr (Or.inl (hpair _ rfl (by simp [classify, hp, hr]))))))
         | tup a => exact Or.inr (Or.inr (Or.inr (Or.inr (Or.inl (hpair _ rfl (by simp [classify, hp]))))))
         | set a => exact Or.inr (Or.inr (Or.inr (Or.inr (Or.inl (hpair _ rfl (by simp [classify, hp]))))))
       · by_cases h2 : name = "@byte"
         · subst h2
           cases v with
-          | num c => exact Or.inr (Or.inl ⟨i, c, by simp [classify, hp], hx⟩)
+          | num c =>
+            by_cases hr : 0 ≤ c ∧ c ≤ 255
+            · exact Or.inr (Or.inl ⟨i, c, by simp [classify, hp, hr], hx⟩)
+            · exact Or.inr (Or.inr (Or.inr (Or.inr (Or.inl (hpair _ rfl (by simp [classify, hp, hr]))))))
           | tup a => exact Or.inr (Or.inr (Or.inr (Or.inr (Or.inl (hpair _ rfl (by simp [classify, hp]))))))
           | set a => exact Or.inr (Or.inr (Or.inr (Or.inr (Or.inl (hpair _ rfl (by simp [classify, hp]))))))
         · by_cases h3 : name = "@item"
